@@ -175,23 +175,10 @@ func main() {
 		nss, groups, keys := r.Bool(), r.Bool(), r.Bool()
 		res, panicked := aggregator.VerifCalcHostMetricBudgets(ms, nss, groups, keys, int(budget), sizes)
 
-		// resolved metas, as the sampler's lookups see them
+		// the metas the storage knows (the model resolves each report's metric through them, else missingMetricMeta)
 		var mets []string
-		midx := map[int32]int{}
 		fairOnHostTag := false
-		for i, id := range mids {
-			midx[id] = i
-			ns, group, mw := int32(format.BuiltinNamespaceIDMissing), int32(format.BuiltinGroupIDMissing), int64(1)
-			var fki []int
-			if m := ms.GetMetaMetric(id); m != nil {
-				ns, group, mw, fki = m.NamespaceID, m.GroupID, m.EffectiveWeight, m.FairKeyIndex
-			}
-			for _, x := range fki {
-				if x == 1 {
-					fairOnHostTag = true
-				}
-			}
-			nsw, gw := int64(0), int64(0)
+		weightOf := func(ns, group int32) (nsw, gw int64) {
 			if ns != 0 {
 				if x := ms.GetNamespace(ns); x != nil {
 					nsw = x.EffectiveWeight
@@ -202,8 +189,22 @@ func main() {
 					gw = x.EffectiveWeight
 				}
 			}
-			mets = append(mets, fmt.Sprintf("(M %s 0 %s %s %d %d %d false %s)", vu.Z(int64(id)), vu.Z(int64(ns)), vu.Z(int64(group)), nsw, gw, mw, listInt(fki)))
+			return
 		}
+		for _, id := range mids {
+			m := ms.GetMetaMetric(id)
+			if m == nil {
+				continue
+			}
+			for _, x := range m.FairKeyIndex {
+				if x == 1 {
+					fairOnHostTag = true
+				}
+			}
+			nsw, gw := weightOf(m.NamespaceID, m.GroupID)
+			mets = append(mets, fmt.Sprintf("(M %s %s %s %d %d %d false %s)", vu.Z(int64(id)), vu.Z(int64(m.NamespaceID)), vu.Z(int64(m.GroupID)), nsw, gw, m.EffectiveWeight, listInt(m.FairKeyIndex)))
+		}
+		missNsw, missGw := weightOf(format.BuiltinNamespaceIDMissing, format.BuiltinGroupIDMissing)
 		got := map[[2]string]int64{} // (metric, host) -> budget
 		dup := false
 		for host, list := range res {
@@ -218,16 +219,16 @@ func main() {
 		var rows, obs, txt []string
 		for _, rp := range reps {
 			k := [2]string{fmt.Sprint(rp.metric), fmt.Sprint(rp.host.I, "/", rp.host.S)}
-			rows = append(rows, fmt.Sprintf("(R %d %d 0 false %d [])", rp.id, rp.size, midx[rp.metric]))
+			rows = append(rows, fmt.Sprintf("(R %d %d 0 false %d 0 None [])", rp.id, rp.size, rp.metric))
 			obs = append(obs, fmt.Sprintf("(%d,%d)", rp.id, got[k]))
 			txt = append(txt, fmt.Sprintf("%d@%d%s:%d->%d", rp.metric, rp.host.I, rp.host.S, rp.size, got[k]))
 		}
-		input := fmt.Sprintf("quota nss=%c groups=%c keys=%c budget=%d total=%d fairkey_on_host_tag=%c reports[metric@host:size->budget]=%s metas[M id 0 ns group nsw gw mw nsa fki]=%s",
+		input := fmt.Sprintf("quota nss=%c groups=%c keys=%c budget=%d total=%d fairkey_on_host_tag=%c reports[metric@host:size->budget]=%s metas[M id ns group nsw gw mw nsa fki]=%s",
 			b01(nss), b01(groups), b01(keys), budget, total, b01(fairOnHostTag), strings.Join(txt, " "), strings.Join(mets, " "))
 		if len(input) > 700 {
 			input = input[:700] + "..."
 		}
-		term := fmt.Sprintf("CQuota %s %s %s [%s] [%s] [%s]", vu.B(nss), vu.B(groups), vu.Z(budget), strings.Join(mets, ";"), strings.Join(rows, ";"), strings.Join(obs, ";"))
+		term := fmt.Sprintf("CQuota %s %s %s %d %d [%s] [%s] [%s]", vu.B(nss), vu.B(groups), vu.Z(budget), missNsw, missGw, strings.Join(mets, ";"), strings.Join(rows, ";"), strings.Join(obs, ";"))
 		contended := total > budget
 		kinds := []string{fmt.Sprintf("cfg/nss%c-groups%c-keys%c", b01(nss), b01(groups), b01(keys))}
 		if contended {
